@@ -120,6 +120,14 @@ func (c ColorV) Color() ivg.Color {
 	return ivg.RGBAColor(color.RGBA{c.R, c.G, c.B, c.A})
 }
 
+// Norm: palette and register indices are taken modulo 64 by the constructors.
+func (c ColorV) Norm() ColorV {
+	if c.T == 1 || c.T == 2 {
+		c.R &= 0x3f
+	}
+	return c
+}
+
 func (c ColorV) RGBA() color.RGBA { return color.RGBA{c.R, c.G, c.B, c.A} }
 
 func RGBAv(c color.RGBA) ColorV { return ColorV{0, c.R, c.G, c.B, c.A} }
